@@ -4,6 +4,9 @@ package nodeimpl
 
 import (
 	"fmt"
+	"io/ioutil"
+	"os"
+	"path/filepath"
 	"strconv"
 	"strings"
 
@@ -36,6 +39,7 @@ func NewRegistry() *Registry {
 type Impl struct {
 	*Registry
 	OwnPrefix string
+	ReplayErr string
 	Powers    []int64 // when set, `init` is not needed
 	C        *nodekit.Chain
 	own      int
@@ -100,6 +104,44 @@ var stepByName = map[string]pbft.RoundStepType{
 	"PrecommitWait": pbft.RoundStepPrecommitWait, "Commit": pbft.RoundStepCommit,
 }
 
+// tearWAL truncates the WAL file in the middle of the last input record (msgInfo / timeoutInfo)
+// of the current height. Returns false when there is no such record after the last height marker.
+func (im *Impl) tearWAL() bool { return im.tear(true) }
+
+// CanTear: there is an input record of the current height to tear.
+func (im *Impl) CanTear() bool { return im.tear(false) }
+
+func (im *Impl) tear(doIt bool) bool {
+	if doIt {
+		im.C.CS.VerifStopWAL()
+	}
+	path := filepath.Join(im.C.Dir, "wal", "wal")
+	data, err := ioutil.ReadFile(path)
+	if err != nil {
+		return false
+	}
+	lines := strings.SplitAfter(string(data), "\n")
+	off, last, lastOff := 0, -1, 0
+	marker := -1
+	for i, l := range lines {
+		if strings.HasPrefix(l, "#HEIGHT:") {
+			marker = i
+		}
+		if strings.Contains(l, "\"msg\":[2,") || strings.Contains(l, "\"msg\":[3,") {
+			last, lastOff = i, off
+		}
+		off += len(l)
+	}
+	if last < 0 || last < marker {
+		return false
+	}
+	if !doIt {
+		return true
+	}
+	cut := lastOff + len(lines[last])/2
+	return ioutil.WriteFile(path, data[:cut], 0600) == nil
+}
+
 // ResetAfterRestart: the chain object was rebuilt (new ticker, new ConsensusState)
 func (im *Impl) ResetAfterRestart() {
 	im.nSched = 0
@@ -145,6 +187,44 @@ func (im *Impl) Digest() string {
 		im.C.CS.VerifInternalQueueLen(), strings.Join(em, " "))
 }
 
+// Votes summarises the HeightVoteSet of the current height: for every round that holds a vote,
+// who voted for what (by validator index) and the +2/3 majority.
+func (im *Impl) Votes() string {
+	rs := im.C.CS.GetRoundState()
+	var out []string
+	one := func(vs *types.VoteSet) string {
+		if vs == nil {
+			return ""
+		}
+		var xs []string
+		any := false
+		for i := 0; i < vs.Size(); i++ {
+			v := vs.GetByIndex(i)
+			if v == nil {
+				xs = append(xs, "_")
+			} else {
+				any = true
+				xs = append(xs, im.NameOfHash(v.BlockID.Hash))
+			}
+		}
+		if !any {
+			return ""
+		}
+		m := "none"
+		if bid, ok := vs.TwoThirdsMajority(); ok {
+			m = im.NameOfHash(bid.Hash)
+		}
+		return strings.Join(xs, ",") + "/" + m
+	}
+	for r := int64(0); r <= rs.Round+12; r++ {
+		pv, pc := one(rs.Votes.Prevotes(r)), one(rs.Votes.Precommits(r))
+		if pv != "" || pc != "" {
+			out = append(out, fmt.Sprintf("r%d:pv=%s;pc=%s", r, pv, pc))
+		}
+	}
+	return fmt.Sprintf("h=%d votes %s", rs.Height, strings.Join(out, " "))
+}
+
 func (im *Impl) Exec(line string) string {
 	res := vh.Guard(func() string {
 		w := strings.Fields(line)
@@ -177,12 +257,24 @@ func (im *Impl) Exec(line string) string {
 		case "proposal":
 			e := im.Blocks[w[1]]
 			p := im.C.SignProposal(Atoi(kv["h"]), Atoi(kv["r"]), e.Parts.Header(), Atoi(kv["pol"]), im.Bid(kv["polblock"]), int(Atoi(kv["signer"])), kv["bad"] == "1")
+			if kv["presave"] == "1" {
+				im.C.CS.VerifSaveOnly(&pbft.ProposalMessage{Proposal: p}, "peer")
+				return "ok"
+			}
 			im.C.CS.VerifHandleMsg(&pbft.ProposalMessage{Proposal: p}, "peer")
 			return im.Digest()
 		case "parts":
 			e := im.Blocks[w[1]]
 			for i := 0; i < e.Parts.Total(); i++ {
-				im.C.CS.VerifHandleMsg(&pbft.BlockPartMessage{Height: Atoi(kv["h"]), Round: Atoi(kv["r"]), Part: e.Parts.GetPart(i)}, "peer")
+				m := &pbft.BlockPartMessage{Height: Atoi(kv["h"]), Round: Atoi(kv["r"]), Part: e.Parts.GetPart(i)}
+				if kv["presave"] == "1" {
+					im.C.CS.VerifSaveOnly(m, "peer")
+				} else {
+					im.C.CS.VerifHandleMsg(m, "peer")
+				}
+			}
+			if kv["presave"] == "1" {
+				return "ok"
 			}
 			return im.Digest()
 		case "vote":
@@ -195,10 +287,30 @@ func (im *Impl) Exec(line string) string {
 				signer = 0
 			}
 			v := im.C.SignVote(idx, Unhex(kv["addr"]), Atoi(kv["h"]), Atoi(kv["r"]), byte(Atoi(kv["t"])), im.Bid(kv["block"]), signer, kv["tamper"] == "1")
+			if kv["presave"] == "1" {
+				im.C.CS.VerifSaveOnly(&pbft.VoteMessage{Vote: v}, kv["peer"])
+				return "ok"
+			}
 			im.C.CS.VerifHandleMsg(&pbft.VoteMessage{Vote: v}, kv["peer"])
 			return im.Digest()
 		case "timeout":
 			im.C.CS.VerifHandleTimeout(Atoi(w[1]), Atoi(w[2]), stepByName[w[3]])
+			return im.Digest()
+		case "restart":
+			if kv["torn"] == "1" {
+				if !im.tearWAL() {
+					return "not-torn"
+				}
+			}
+			im.C.Restart()
+			if err := im.C.CS.VerifCatchupReplay(); err != nil {
+				im.ReplayErr = err.Error()
+				if os.Getenv("VERIF_DEBUG") != "" {
+					fmt.Fprintln(os.Stderr, "catchupReplay:", err)
+				}
+			}
+			im.C.CS.VerifScheduleRound0()
+			im.ResetAfterRestart()
 			return im.Digest()
 		case "drain":
 			var seen []string
@@ -252,6 +364,11 @@ func (im *Impl) Exec(line string) string {
 				}
 			}
 			return strings.Join(seen, " ") + " || " + im.Digest()
+		case "votes":
+			return im.Votes()
+		case "proposer":
+			rs := im.C.CS.GetRoundState()
+			return fmt.Sprintf("proposer=%x", rs.Validators.Proposer().Address)
 		}
 		return "bad-op"
 	})
